@@ -243,6 +243,16 @@ def jobs(prop, tier):
                          models=['string', 'libc', 'sstream', 'posix', 'containers', 'libm'],
                          skip_ctors=['data.cpp', 'datatype', 'contrib', 'tem', 'filereader'], rtti=True, noop_containing=['_ZNSt8_Rb_tree+8_M_eraseEPSt13_Rb_tree_node'], solver=PORTFOLIO, timeout=900 if T else 250,
                          bounds='%d fields named %s, every numeric/string kind assignment, every query (unnamed, a, b, c) x kind' % (nf, ','.join(names))))
+    if prop == 'C13':
+        MSG = dict(link=['lib/ebus/message.cpp', 'lib/ebus/data.cpp', 'lib/ebus/datatype.cpp', 'lib/ebus/symbol.cpp', 'lib/ebus/result.cpp', 'lib/ebus/filereader.cpp', 'lib/ebus/contrib/contrib.cpp', 'lib/ebus/contrib/tem.cpp'],
+                   models=['string', 'libc', 'sstream', 'posix', 'containers', 'libm'], skip_ctors=['message', 'data.cpp', 'datatype', 'contrib', 'tem', 'filereader'],
+                   rtti=True, noop_containing=['_ZNSt8_Rb_tree+8_M_eraseEPSt13_Rb_tree_node'], solver=PORTFOLIO, timeout=1500 if T else 280,
+                   devirt_exclude=['_ZN5ebusd22SimpleNumericCondition', '_ZN5ebusd21SimpleStringCondition'])   # the only condition objects are the harness class and CombinedCondition (checked, not assumed)
+        for u in ((2, 3, 4) if T else (2, 3)):
+            J.append(Job('C13', 'history_u%d' % u, 'C13_history.cpp', defs={'U': u}, unwind=u + 6, shape='R',
+                         bounds='%d updates of the referenced message with arbitrary value bytes at arbitrary clock steps of 0..2 s, availability asked after each; condition with or without value range, any range' % u, **MSG))
+        J.append(Job('C13', 'history_combined_u2', 'C13_history.cpp', defs={'U': 2, 'COMBINED': None}, unwind=9, shape='R',
+                     bounds='combined condition of two simple conditions on the same message, 2 updates', **MSG))
     if prop == 'C20':
         # C20 = conjunction of the built-in safety obligations (bounds, pointer validity, freed objects, shifts, signed overflow,
         # division by zero, uncaught-throw model, unwinding assertions = bounded work) over kernels whose inputs are arbitrary buffers
@@ -317,9 +327,9 @@ META = {
    assumptions=COMMON_ASSUME + ['queue vector is heap-ordered before the step (std::priority_queue representation invariant)', 'virtual times within [clock-30, clock+priority]'],
  ),
  'C13': dict(
-   level_text='Bounded model checking of the real field lookup used when a condition is resolved (DataFieldSet::hasField / SingleDataField::hasField): for every assignment of numeric/string kinds to up to 3 named fields and every query (unnamed or named, numeric or string) the answer is true iff a field of that name and kind exists.',
-   level_note='Only the resolution predicate is decided. Outside: the value-history clause (SimpleCondition::isTrue over storeLastData updates and clock readings), range parsing, combined conditions, SimpleCondition::resolve message lookup by name -- these sit on Message/MessageMap objects (std::map of strings) that this encoding does not reach within the cap.',
-   outside_claim='availability over update histories (isTrue/checkValue), range/value-list parsing, combined and scan conditions, message lookup in resolve()',
+   level_text='Bounded model checking of two parts. (1) History: the real SimpleCondition::isTrue (verdict cache keyed by the referenced message\'s last change time) and CombinedCondition::isTrue, fed by the real Message::storeLastData(slave) change tracking, over U <= 3 (thorough 4) updates with arbitrary value bytes at arbitrary non-decreasing clock readings (steps of 0, 1 or 2 seconds, so several updates within one second are included) with an availability query after every update: not available before the first update; afterwards available iff the most recently stored value satisfies the condition (any range; value-less = seen); asking again gives the same verdict; same for a combined condition of two. (2) Resolution: the real field lookup used when a condition is resolved (DataFieldSet::hasField / SingleDataField::hasField): for every assignment of numeric/string kinds to up to 3 named fields and every query (unnamed or named, numeric or string) the answer is true iff a field of that name and kind exists.',
+   level_note='History part: the Message is constructed partially (last-data members only; storeLastData is called non-virtually) and the value test checkValue -> decodeLastDataNumField -> DataFieldSet::read is replaced by a harness condition class that reads the stored data byte directly (same predicate on both sides; the subject is the history tracking, not the decoding, which C05 covers at type level). Outside: range/value-list parsing (splitValues), string conditions\' value comparison, SimpleCondition::resolve message lookup by name, scan conditions -- these sit on Message/MessageMap objects (std::map of strings) that this encoding does not reach within the cap.',
+   outside_claim='checkValue decoding path (decodeLastDataNumField / decodeLastData), range/value-list parsing, scan conditions, message lookup in resolve(), histories longer than the bound, master-data change tracking',
    assumptions=COMMON_ASSUME,
  ),
  'C16': dict(
